@@ -138,6 +138,9 @@ struct sop {
 
 struct qsbr_harness final : harness {
   std::string default_prop() override { return "C05"; }
+  // a QSBR call that never returns under a fair schedule: the rounds of quiescent states C06 bounds the
+  // reclamation by can never complete (and the drain never ends)
+  std::string livelock_property() override { return "C06"; }
   std::string prop = "C05";
 
   void setup_process() override {
